@@ -84,6 +84,9 @@ pub enum Op {
     RecvView { rx: u16 },
     TryIter { rx: u16, max: u8, variant: u8 },
     IntoIter { rx: u16, max: u8, variant: u8 },
+    /// a non-blocking iterator kept alive across a send: next() up to `max`+1 times or to the
+    /// first None, then a try_send through `tx`, then up to two more next() on the same iterator
+    TryIterAcross { rx: u16, tx: u16, max: u8, variant: u8 },
     Poll { rx: u16, by_ref: bool },
     /// task loop: poll until Ready, parking the task on NotReady
     StreamNext { rx: u16 },
@@ -999,6 +1002,35 @@ impl Ctx {
                             .unwrap();
                     }
                     sched().set_activity(Act::default());
+                }
+                Some(i) => {
+                    self.do_try_recv(i);
+                }
+                None => self.skip(),
+            },
+            Op::TryIterAcross { rx, tx, max, variant } => match pick(*rx, self.rxs.len()) {
+                Some(i) if self.rxs[i].rx.has_iter() => {
+                    // the receiver leaves the table while its iterator borrows it, so that the
+                    // send in the middle can go through the interpreter as any other send
+                    let mut h = self.rxs.remove(i);
+                    let (hid, stream, rxk) = (h.id, h.stream, h.rx.kind());
+                    let act = Act { kind: CallKind::TryIterNext.code(), handle: hid, stream, op_idx: self.op_idx };
+                    sched().set_activity(act);
+                    let mut emit = self.iter_emitter(hid, stream, rxk, CallKind::TryIterNext, Arc::new(std::sync::atomic::AtomicU64::new(0)));
+                    let send_op = Op::TrySend { tx: *tx };
+                    {
+                        let mut mid = || {
+                            // the interpreter's own work is not the crate's: only the call it
+                            // makes counts (it opens its own scope)
+                            let _nc = crate::mem::NoCount::new();
+                            self.exec(&send_op);
+                            sched().set_activity(act);
+                        };
+                        let _count = crate::mem::Count::on();
+                        h.rx.try_iter_across(*max as usize + 1, *variant, &|| sched().tick(), &mut emit, &mut mid).unwrap();
+                    }
+                    sched().set_activity(Act::default());
+                    self.rxs.insert(i, h);
                 }
                 Some(i) => {
                     self.do_try_recv(i);
